@@ -32,7 +32,10 @@ def rnum(rng):
 
 
 def relem(rng):
-    return rnum(rng) if rng.random() < 0.5 else rstr(rng)
+    m = rng.random()
+    if m < 0.15:
+        return rng.choice([0, 0.0, 1, -1])
+    return rnum(rng) if m < 0.55 else rstr(rng)
 
 
 def gen_values(rng, k):
@@ -43,6 +46,7 @@ def gen_values(rng, k):
         out.append(rng.choice([True, False]))
         out.append(rnum(rng))
         out.append([relem(rng) for _ in range(rng.choice([0, 1, 2, 3, 5]))])
+        out.append([relem(rng) for _ in range(rng.choice([1, 2, 3]))])
         d = {}
         for _ in range(rng.choice([0, 1, 2, 3])):
             d[rstr(rng)] = relem(rng)
